@@ -45,6 +45,23 @@ MOLECULES = {
         (['F@1C=C@2[C;x=@x](Cl)(%0)C', 'N%0'], 'chain'),
     ]),
 }
+# literal strings (descriptors written out; a fragment name may be used for several residues) with their uncut form
+LITERAL = [
+    ('{[#S][#N][#M][#N]}.{#S=C@1C=[>],#N=[<]=C@2C(F)=[>],#M=[<]=C@3C=[>]}', 'C@1C=C@2C(F)=C@3C=C@2CF'),
+    ('{[#A][#X]([#B])([#C])[#D]}.{#A=F[$],#X=[$][C;x=@x]([$])([$])[$],#B=Cl[$],#C=Br[$],#D=I[$]}', 'F[C;x=@x](Cl)(Br)I'),
+    ('{[#A][#X][#B]}.{#A=F[$],#X=[$][C;x=@x](Cl)([H])[$],#B=O[$]}', 'F[C;x=@x](Cl)([H])O'),
+]
+
+
+def chirality_signature(moldata):
+    nodes = moldata['nodes']
+    nb = {n: [] for n in nodes}
+    for a, b, o, _ in moldata['edges']:
+        nb[a].append(nodes[b].get('element'))
+        nb[b].append(nodes[a].get('element'))
+    return sorted([nodes[n]['chiral'], nodes[n].get('element'), sorted(nb[n])] for n in nodes if 'chiral' in nodes[n])
+
+
 QUICK = ['difluoroethene', 'difluorobutene', 'butene', 'chiral_centre', 'branched_fluorobutene', 'chlorobutene']
 
 
@@ -110,9 +127,31 @@ class C15(core.Prop):
                 for p in perms:
                     # the base graph must stay connected as a chain of the fragments that share a descriptor
                     out.append({'mol': nm, 'frag': fi, 'order': list(p)})
+        for i in range(len(LITERAL)):
+            out.append({'mode': 'literal', 'idx': i})
         return out
 
     def build(self, shape):
+        if shape.get('mode') == 'literal':
+            layered, uncut = LITERAL[shape['idx']]
+            slashes = {k: SymStr([sym_char('sl' + k, allowed='/\\')]) for k in '1234' if ('@' + k) in layered}
+            xl = SymStr([sym_char('chir', allowed='RS')]) if '@x' in layered else None
+
+            def fill(t):
+                out = []
+                i = 0
+                while i < len(t):
+                    if t[i] == '@':
+                        out.append(xl if t[i + 1] == 'x' else slashes[t[i + 1]])
+                        i += 2
+                    else:
+                        out.append(t[i])
+                        i += 1
+                return cat(*out)
+            import re
+            plain = re.sub(r';x=@x', '', uncut)
+            return {'text': fill(layered), 'uncut': cat('{[#M]}.{#M=', fill(uncut), '}'), 'plain': fill(plain),
+                    'slashes': slashes, 'chir': xl}
         uncut, frags = MOLECULES[shape['mol']]
         texts, _ = frags[shape['frag']]
         slashes = {}
@@ -184,6 +223,10 @@ class C15(core.Prop):
             rc = sorted([ref.nodes[t[0]]['element'], ref.nodes[t[3]]['element'], t[4]]
                         for n, d in ref.nodes(data=True) for t in (d.get('ez_isomer') or []))
             cl.append(('same_classes_as_pysmiles_reading', c1 == rc))
+        if shape.get('mode') == 'literal':
+            cl.append(('chirality_labels_on_atoms_with_the_same_neighbourhood_as_uncut',
+                       chirality_signature(cut[1]['mol']) == chirality_signature(uncut[1]['mol'])))
+            return cl
         if inp['chir'] is not None:
             nodes = cut[1]['mol']['nodes']
             nb = {n: [] for n in nodes}
@@ -205,7 +248,7 @@ class C15(core.Prop):
         # ligand/anchor order of the second half can be reversed).  Signature: only class clauses fail, the
         # fragments are not listed in the order of the uncut SMILES, and the same input (same slash values,
         # labels, kinds) with the fragments listed in that order passes every clause.
-        if not set(clauses) <= {'same_classes_as_uncut', 'same_classes_as_pysmiles_reading'}:
+        if not set(clauses) <= {'same_classes_as_uncut', 'same_classes_as_pysmiles_reading'} or shape.get('mode') == 'literal':
             return None
         n = len(shape['order'])
         if shape['order'] == list(range(n)):
